@@ -46,6 +46,15 @@ void ob_c01_offset(const mk_t<K,size_t,R>& idx, const mk_t<K,size_t,R>& st)
     auto off = ix::compute_offset(idx,st);
     OBLIGE("C01.O2.offset", (nm_size_t)off==e, kid<K>, R);
 }
+// O2 with narrow element types: every term is widened to the offset type BEFORE the multiplication
+template <class TI, class TS, size_t R>
+void ob_c01_offset_narrow(const std::array<TI,R>& idx, const std::array<TS,R>& st)
+{
+    nm_size_t e = 0;
+    for_<R>([&](auto I){ e += (nm_size_t)rd<I.value>(idx) * (nm_size_t)rd<I.value>(st); });
+    auto off = ix::compute_offset(idx,st);
+    OBLIGE("C01.O2.offset_widened_before_multiply", (nm_size_t)off==e, sizeof(TI)*10+sizeof(TS), R);
+}
 // O3: compute_indices(off,shape)[i] < shape[i]  and == (off / prod_{j>i} s[j]) % s[i]
 template <class K, size_t R>
 void ob_c01_indices(size_t off, const mk_t<K,size_t,R>& s)
@@ -110,6 +119,11 @@ void ob_c01_negctl(const mk_t<K,size_t,R>& s)
   template void ob_c01_product_reverse<K,R>(const mk_t<K,size_t,R>&);
 #define INSTK(K) INST(K,1) INST(K,2) INST(K,3) INST(K,4)
 INSTK(k_std) INSTK(k_utl) INSTK(k_tup) INSTK(k_sv)
+template void ob_c01_offset_narrow<int,int,2>(const std::array<int,2>&, const std::array<int,2>&);
+template void ob_c01_offset_narrow<int,int,3>(const std::array<int,3>&, const std::array<int,3>&);
+template void ob_c01_offset_narrow<unsigned,unsigned,3>(const std::array<unsigned,3>&, const std::array<unsigned,3>&);
+template void ob_c01_offset_narrow<unsigned char,unsigned short,3>(const std::array<unsigned char,3>&, const std::array<unsigned short,3>&);
+template void ob_c01_offset_narrow<int,size_t,3>(const std::array<int,3>&, const std::array<size_t,3>&);
 template void ob_c01_negctl<k_std,2>(const mk_t<k_std,size_t,2>&);
 #ifdef VERIF_THOROUGH
 INST(k_std,5) INST(k_std,6) INST(k_utl,5) INST(k_utl,6) INST(k_tup,5) INST(k_tup,6)
